@@ -24,6 +24,8 @@ fn atoms() -> Vec<(&'static str, Vec<Op>)> {
         ("owned-optout-leaf", vec![Op::Owned { ty: LEAF_S, id: "e.b1".into() }]),
         // two extensions, only the second file exists: the probe of the first one is a read too
         ("load-second-ext", vec![Op::Load { ty: LEAF_2, id: "e.m0".into() }]),
+        // a recursive directory: the parent depends on the recursive directory of each sub-directory
+        ("load-recdir", vec![Op::Load { ty: Ty::RecDir(Elem::LeafA), id: "r".into() }]),
     ]
 }
 
@@ -104,6 +106,9 @@ fn run_recipe(rep: &mut Report, recipe: &[Op], tag: serde_json::Value, static_mo
         for l in LEAVES {
             w.seed_file(c, l, "a", &format!("{l}@c{c}#0"));
         }
+        w.seed_file(c, "r.top", "a", &format!("r.top@c{c}#0"));
+        w.seed_file(c, "r.sub.in", "a", &format!("r.sub.in@c{c}#0"));
+        w.seed_file(c, "r.sub.deep.leaf", "a", &format!("r.sub.deep.leaf@c{c}#0"));
         w.seed_file(c, "e.b0", "a", &format!("e.b0@c{c}#0"));
         w.seed_file(c, "e.b1", "a", &format!("e.b1@c{c}#0"));
         w.seed_file(c, "e.m0", "q", &format!("e.m0.q@c{c}#0"));
@@ -158,13 +163,16 @@ fn run_recipe(rep: &mut Report, recipe: &[Op], tag: serde_json::Value, static_mo
             break;
         }
     }
-    // a directory gains an entry
-    for c in 0..2usize {
+    // a directory gains an entry (a flat one, then two levels of a recursive one)
+    for (c, dir, file) in [(0usize, "d", "d.new"), (1, "d", "d.new"), (0, "r.sub.deep", "r.sub.deep.new"), (0, "r.sub", "r.sub.new")] {
         if w.aborted.is_some() {
             break;
         }
-        w.apply(&Step::Write { c, id: "d.new".into(), ext: "a".into(), content: format!("new@c{c}") }, rep, &j);
-        w.apply(&Step::Notify { c, entries: vec![(true, "d".into(), String::new())], batched: false }, rep, &j);
+        if cfg!(miri) && c == 1 {
+            continue;
+        }
+        w.apply(&Step::Write { c, id: file.into(), ext: "a".into(), content: format!("new@c{c}") }, rep, &j);
+        w.apply(&Step::Notify { c, entries: vec![(true, dir.into(), String::new())], batched: false }, rep, &j);
         for cc in 0..3 {
             let st = w.apply(&Step::Pass { c: cc }, rep, &j);
             if st.reloaded > 0 {
